@@ -5,6 +5,7 @@ import (
 	"encoding/json"
 	"fmt"
 	"os"
+	"strings"
 )
 
 // replayStream re-runs one recorded stream case (./check <ID> --replay <file>):
@@ -69,7 +70,14 @@ func replayStream(prop string, o runOpts, timeInScope bool, requireSuccess bool,
 		if !ok {
 			return 2
 		}
-		proj := fmt.Sprintf("err=%d pos=%d files=%v", impl.ErrClass, impl.Pos, impl.Files)
+		var fs []string
+		for _, f := range impl.Files {
+			if k := strings.Index(f, ";UM"); k >= 0 {
+				f = f[:k] // the unknown lists are what the options add
+			}
+			fs = append(fs, maskAccumText(f))
+		}
+		proj := fmt.Sprintf("err=%d pos=%d files=%v", impl.ErrClass, impl.Pos, fs)
 		if i == 0 {
 			base = proj
 		} else if proj != base {
